@@ -754,6 +754,162 @@ func gatedRoutes(fact string, props []string, rel, recv, fn string) {
 	fmt.Fprintf(&out, "/-- serves %s -/\ndef %s : List (String × List String × List String × String) := [%s]\n\n", strings.Join(props, " "), fact, strings.Join(outl, ", "))
 }
 
+// templateActions: for every `t.Parse(`…`)` literal in the given files, each value-producing {{…}} action together with the
+// HTML context it sits in, found by a small scanner: text | attr-dq:<name> | attr-sq:<name> | attr-unquoted:<name> | tag | rawtext:<elem> | comment
+func templateActions(fact, importsFact string, props []string, rels ...string) {
+	var triples []string
+	var imports []string
+	for _, rel := range rels {
+		f := parse(rel)
+		if f == nil {
+			fail(fact, props, rel+" does not parse")
+			return
+		}
+		imp := ""
+		for _, is := range f.Imports {
+			if p := unq(is.Path.Value); p == "html/template" || p == "text/template" {
+				imp = p
+			}
+		}
+		imports = append(imports, imp)
+		ast.Inspect(f, func(n ast.Node) bool {
+			c, ok := n.(*ast.CallExpr)
+			if !ok {
+				return true
+			}
+			se, ok := c.Fun.(*ast.SelectorExpr)
+			if !ok || se.Sel.Name != "Parse" || len(c.Args) != 1 {
+				return true
+			}
+			bl, ok := c.Args[0].(*ast.BasicLit)
+			if !ok {
+				return true
+			}
+			text := unq(bl.Value)
+			name := ""
+			state, attr, raw, quote := "text", "", "", byte(0)
+			i := 0
+			for i < len(text) {
+				if strings.HasPrefix(text[i:], "{{") {
+					j := strings.Index(text[i:], "}}")
+					if j < 0 {
+						break
+					}
+					act := strings.TrimSpace(strings.Trim(text[i+2:i+j], "-"))
+					i += j + 2
+					fields := strings.Fields(act)
+					kw := ""
+					if len(fields) > 0 {
+						kw = fields[0]
+					}
+					switch kw {
+					case "define":
+						if len(fields) > 1 {
+							name = strings.Trim(fields[1], "\"")
+						}
+						state, attr, raw = "text", "", ""
+					case "if", "else", "end", "range", "template", "with", "block":
+					default:
+						ctx := state
+						switch state {
+						case "attr-dq", "attr-sq", "attr-unquoted":
+							ctx = state + ":" + attr
+						case "rawtext":
+							ctx = "rawtext:" + raw
+						}
+						triples = append(triples, "("+leanStr(name)+", "+leanStr(act)+", "+leanStr(ctx)+")")
+					}
+					continue
+				}
+				ch := text[i]
+				switch state {
+				case "text":
+					if strings.HasPrefix(text[i:], "<!--") {
+						state = "comment"
+						i += 4
+						continue
+					}
+					if ch == '<' && i+1 < len(text) && (text[i+1] == '/' || (text[i+1]|0x20 >= 'a' && text[i+1]|0x20 <= 'z')) {
+						k := i + 1
+						if text[k] == '/' {
+							k++
+						}
+						e := k
+						for e < len(text) && (text[e]|0x20 >= 'a' && text[e]|0x20 <= 'z' || text[e] >= '0' && text[e] <= '9') {
+							e++
+						}
+						el := strings.ToLower(text[k:e])
+						if text[i+1] != '/' && (el == "script" || el == "style") {
+							raw = el
+						} else {
+							raw = ""
+						}
+						state, attr = "tag", ""
+						i = e
+						continue
+					}
+				case "comment":
+					if strings.HasPrefix(text[i:], "-->") {
+						state = "text"
+						i += 3
+						continue
+					}
+				case "rawtext":
+					if strings.HasPrefix(strings.ToLower(text[i:]), "</"+raw) {
+						state, raw = "text", ""
+						continue
+					}
+				case "tag":
+					switch {
+					case ch == '>':
+						if raw != "" {
+							state = "rawtext"
+						} else {
+							state = "text"
+						}
+					case ch == '=':
+						k := i + 1
+						for k < len(text) && (text[k] == ' ' || text[k] == '\n' || text[k] == '\t') {
+							k++
+						}
+						if k < len(text) && text[k] == '"' {
+							state, quote, i = "attr-dq", '"', k+1
+							continue
+						} else if k < len(text) && text[k] == '\'' {
+							state, quote, i = "attr-sq", '\'', k+1
+							continue
+						}
+						state, i = "attr-unquoted", k
+						continue
+					case ch|0x20 >= 'a' && ch|0x20 <= 'z' || ch == '-':
+						e := i
+						for e < len(text) && (text[e]|0x20 >= 'a' && text[e]|0x20 <= 'z' || text[e] == '-' || text[e] >= '0' && text[e] <= '9') {
+							e++
+						}
+						attr = strings.ToLower(text[i:e])
+						i = e
+						continue
+					}
+				case "attr-dq", "attr-sq":
+					if ch == quote {
+						state = "tag"
+					}
+				case "attr-unquoted":
+					if ch == ' ' || ch == '>' || ch == '\n' {
+						state = "tag"
+						continue
+					}
+				}
+				i++
+			}
+			return true
+		})
+	}
+	names = append(names, fact, importsFact)
+	fmt.Fprintf(&out, "/-- serves %s -/\ndef %s : List (String × String × String) := [%s]\n\n", strings.Join(props, " "), fact, strings.Join(triples, ",\n  "))
+	fmt.Fprintf(&out, "/-- serves %s -/\ndef %s : List String := %s\n\n", strings.Join(props, " "), importsFact, leanStrList(imports))
+}
+
 func unq(s string) string {
 	u, err := strconv.Unquote(s)
 	if err != nil {
